@@ -151,6 +151,61 @@ def run(tier, seed, replay=None):
                         chk.violation({"tree": tree, "fault": name}, f"tree {tree}, cache {name}: " + "; ".join(probs))
     finally:
         shutil.rmtree(tmp, ignore_errors=True)
+    # ---- faults injected into the cache WRITE of a real run: the process may write only N bytes to any file
+    #      (RLIMIT_FSIZE; the write then fails with EFBIG, or the process is killed by SIGXFSZ)
+    child = (
+        "import resource, signal, sys, io, contextlib\n"
+        "from pathlib import Path\n"
+        "n, mode, root = int(sys.argv[1]), sys.argv[2], sys.argv[3]\n"
+        "from codelimit.commands.scan import scan_command\n"
+        "if mode == 'error': signal.signal(signal.SIGXFSZ, signal.SIG_IGN)\n"
+        "resource.setrlimit(resource.RLIMIT_FSIZE, (n, n))\n"
+        "with contextlib.redirect_stdout(io.StringIO()): scan_command(Path(root))\n")
+    import subprocess
+    from common import REPO
+    tmp = tempfile.mkdtemp(prefix="verif_c10w_")
+    try:
+        tree = TREES[1]
+        probe = tempfile.mkdtemp(prefix="probe_", dir=tmp)
+        for p, c in tree:
+            F.write_file(probe, p, c)
+        F.run_scan(probe, [])
+        size = os.path.getsize(F.cache_path(probe))
+        limits = [0, 10, 43, 44, 60, 150, size // 2, size - 1] if tier == "quick" else list(range(0, size, 11))
+        k = 0
+        for n in limits:
+            for mode in ("error", "kill"):
+                for prior in (False, True):
+                    k += 1
+                    root = tempfile.mkdtemp(prefix=f"w{k}_", dir=tmp)
+                    for p, c in tree:
+                        F.write_file(root, p, c)
+                    if prior:
+                        F.run_scan(root, [])
+                        F.write_file(root, "a.py", 31)            # one file changed since the cached scan
+                    env = dict(os.environ, PYTHONPATH=REPO, LC_ALL="C", PYTHONDONTWRITEBYTECODE="1")
+                    subprocess.run(["/venv/bin/python", "-c", child, str(n), mode, root], env=env, capture_output=True, timeout=120)
+                    left = sorted(os.listdir(os.path.join(root, ".codelimit_cache"))) if os.path.isdir(os.path.join(root, ".codelimit_cache")) else None
+                    fresh, _ = F.fresh_report(root, [], root + "_fresh")
+                    probs = []
+                    try:
+                        rep, _ = F.run_scan(root, [])
+                        rep["root"] = None
+                        if rep != fresh:
+                            probs.append("the scan after the interrupted one differs from a from-scratch scan")
+                        rep2, _ = F.run_scan(root, [])
+                    except Exception as ex:
+                        probs.append(f"the scan after the interrupted one raised {type(ex).__name__}: {str(ex)[:120]}")
+                    chk.evaluations += 1
+                    chk.count("cache write cut short by the OS")
+                    chk.nontrivial.add(("write", n, mode, prior))
+                    if probs:
+                        chk.violation({"tree": tree, "write_limit_bytes": n, "mode": mode, "prior_cache": prior, "left_on_disk": left},
+                                      f"cache write limited to {n} bytes ({mode}, prior cache: {prior}; left on disk: {left}): " + "; ".join(probs))
+                    shutil.rmtree(root, ignore_errors=True)
+                    shutil.rmtree(root + "_fresh", ignore_errors=True)
+    finally:
+        shutil.rmtree(tmp, ignore_errors=True)
     # fault sequences interleaved with scans: through the C09 machinery, model included
     alpha = [("damage", "truncate"), ("damage", "garbage"), ("remove_cache",), ("write", "a.py", 16), ("delete", "d/b.js"),
              ("other_version",), ("drop", "a.py"), ("write", "d/c.py", 31)]
